@@ -304,3 +304,472 @@ Proof.
   intros r s d e Hin. pose proof (run_alone_codes_allr r s d) as H. unfold allr in H.
   rewrite Forall_forall in H. apply H. exact Hin.
 Qed.
+
+(* ================================================================== 2. locations *)
+(* ---- positions of the nodes of a document ---- *)
+Definition dirs_ok (d : document) (dirs : list directive) : Prop :=
+  forall x, In x dirs -> In (d_pos x) (doc_positions d).
+
+Lemma in_operations_of d o : In o (operations_of d) <-> In (DOp o) d.
+Proof.
+  unfold operations_of. rewrite in_flat_map. split.
+  - intros [x [Hx Hin]]. destruct x as [o'|f]; cbn in Hin; [|contradiction].
+    destruct Hin as [->|[]]. exact Hx.
+  - intro H. exists (DOp o). split; [exact H|left; reflexivity].
+Qed.
+
+Lemma in_fragments_of d f : In f (fragments_of d) <-> In (DFrag f) d.
+Proof.
+  unfold fragments_of. rewrite in_flat_map. split.
+  - intros [x [Hx Hin]]. destruct x as [o|f']; cbn in Hin; [contradiction|].
+    destruct Hin as [->|[]]. exact Hx.
+  - intro H. exists (DFrag f). split; [exact H|left; reflexivity].
+Qed.
+
+Lemma sels_positions_in l x :
+  In x (sels_all l) ->
+  In (node_pos x) (sels_positions l) /\ (forall dr, In dr (sel_dirs x) -> In (d_pos dr) (sels_positions l)).
+Proof.
+  intro Hx. unfold sels_positions. split.
+  - apply in_flat_map. exists x. split; [exact Hx|left; reflexivity].
+  - intros dr Hdr. apply in_flat_map. exists x. split; [exact Hx|]. right. apply in_map. exact Hdr.
+Qed.
+
+Lemma def_positions_in d x p :
+  In x d ->
+  In p (match x with
+        | DOp o =>
+            match o_kind o with OpSelSet => [] | _ => [o_pos o] end ++
+            map v_pos (op_variable_definitions o) ++ map d_pos (op_directives o) ++
+            sels_positions (o_sels o)
+        | DFrag f => fr_pos f :: map d_pos (fr_dirs f) ++ sels_positions (fr_sels f)
+        end) ->
+  In p (doc_positions d).
+Proof. intros Hx Hp. unfold doc_positions. apply in_flat_map. exists x. split; assumption. Qed.
+
+Lemma def_sels_positions_in d x p : In x d -> In p (sels_positions (def_sels x)) -> In p (doc_positions d).
+Proof.
+  intros Hx Hp. apply (def_positions_in d x p Hx). destruct x as [o|f]; cbn [def_sels] in Hp.
+  - apply in_or_app. right. apply in_or_app. right. apply in_or_app. right. exact Hp.
+  - right. apply in_or_app. right. exact Hp.
+Qed.
+
+Lemma operation_pos_in d o : In o (operations_of d) -> o_kind o <> OpSelSet -> In (o_pos o) (doc_positions d).
+Proof.
+  intros Ho Hk. apply in_operations_of in Ho. apply (def_positions_in d (DOp o) _ Ho).
+  apply in_or_app. left. destruct (o_kind o); [contradiction| | |]; left; reflexivity.
+Qed.
+
+Lemma operation_dirs_in d o : In o (operations_of d) -> dirs_ok d (op_directives o).
+Proof.
+  intros Ho x Hx. apply in_operations_of in Ho. apply (def_positions_in d (DOp o) _ Ho).
+  apply in_or_app. right. apply in_or_app. right. apply in_or_app. left. apply in_map. exact Hx.
+Qed.
+
+Lemma operation_vardef_in d o v :
+  In o (operations_of d) -> In v (op_variable_definitions o) -> In (v_pos v) (doc_positions d).
+Proof.
+  intros Ho Hv. apply in_operations_of in Ho. apply (def_positions_in d (DOp o) _ Ho).
+  apply in_or_app. right. apply in_or_app. left. apply in_map. exact Hv.
+Qed.
+
+Lemma fragment_pos_in d f : In f (fragments_of d) -> In (fr_pos f) (doc_positions d).
+Proof.
+  intro Hf. apply in_fragments_of in Hf. apply (def_positions_in d (DFrag f) _ Hf). left. reflexivity.
+Qed.
+
+Lemma fragment_dirs_in d f : In f (fragments_of d) -> dirs_ok d (fr_dirs f).
+Proof.
+  intros Hf x Hx. apply in_fragments_of in Hf. apply (def_positions_in d (DFrag f) _ Hf).
+  right. apply in_or_app. left. apply in_map. exact Hx.
+Qed.
+
+Lemma selection_pos_in d x : In x (doc_selections d) -> In (node_pos x) (doc_positions d) /\ dirs_ok d (sel_dirs x).
+Proof.
+  intro Hx. unfold doc_selections in Hx. apply in_flat_map in Hx. destruct Hx as [df [Hdf Hx]].
+  destruct (sels_positions_in _ _ Hx) as [H1 H2]. split.
+  - apply (def_sels_positions_in d df _ Hdf H1).
+  - intros dr Hdr. apply (def_sels_positions_in d df _ Hdf). apply H2. exact Hdr.
+Qed.
+
+Lemma directive_pos_in d site dr : In site (directive_sites d) -> In dr (snd site) -> In (d_pos dr) (doc_positions d).
+Proof.
+  intros Hs Hdr. apply in_directive_sites in Hs.
+  destruct Hs as [[o [Ho E]]|[[f [Hf E]]|[x [Hx E]]]]; subst site; cbn [snd sel_site] in Hdr.
+  - apply (operation_dirs_in d o Ho). exact Hdr.
+  - apply (fragment_dirs_in d f Hf). exact Hdr.
+  - apply (selection_pos_in d x Hx). exact Hdr.
+Qed.
+
+(* the document node is entered once, with the document itself *)
+Definition pk_document (n : node) : list document := match n with NDocument d => [d] | _ => [] end.
+
+Lemma pick_document_document d : flat_map (pick pk_document) (lin_document d) = [d].
+Proof.
+  rewrite pick_document by (intros n H; destruct n; (discriminate H || reflexivity)).
+  cbn [pk_document app]. f_equal. apply flat_map_all_nil.
+  assert (Hn : forall l, flat_map (node_pick pk_document) l = []).
+  { intro l. apply flat_map_all_nil.
+    intros [? ? ? ? ? ? ?|? ? ?|? ? ? ? ?]; unfold node_pick, dirs_pick; cbn; rewrite flat_map_nil_fn; reflexivity. }
+  intros [o|f]; cbn [def_pick pk_document app]; unfold dirs_pick; cbn [pk_document];
+    rewrite ?flat_map_nil_fn, Hn; reflexivity.
+Qed.
+
+Lemma in_lin_document_node d d' : In (Enter (NDocument d')) (lin_document d) -> d' = d.
+Proof.
+  intro H.
+  assert (Hin : In d' (flat_map (pick pk_document) (lin_document d))).
+  { apply in_flat_map. exists (Enter (NDocument d')). split; [exact H|left; reflexivity]. }
+  rewrite pick_document_document in Hin. destruct Hin as [E|[]]. symmetry. exact E.
+Qed.
+
+(* what the rules use about the node of the current callback *)
+Definition node_ok (d : document) (e : event) : Prop :=
+  match e with
+  | Enter (NDocument d') => d' = d
+  | Enter (NOperation o) => (o_kind o <> OpSelSet -> In (o_pos o) (doc_positions d)) /\ dirs_ok d (op_directives o)
+  | Enter (NFragmentDef f) => In (fr_pos f) (doc_positions d) /\ In f (fragments_of d) /\ dirs_ok d (fr_dirs f)
+  | Enter (NVarDef v) => In (v_pos v) (doc_positions d)
+  | Enter (NDirective dr) => In (d_pos dr) (doc_positions d)
+  | Enter (NField x) | Enter (NSpread x) | Enter (NInline x) =>
+      In (node_pos x) (doc_positions d) /\ dirs_ok d (sel_dirs x)
+  | _ => True
+  end.
+
+Lemma node_ok_lin d e : In e (lin_document d) -> node_ok d e.
+Proof.
+  intro H. destruct e as [n|n]; [|exact I]. destruct n; cbn [node_ok]; try exact I.
+  - apply in_lin_document_node. exact H.
+  - apply in_lin_operation in H. split; [apply operation_pos_in; exact H|apply operation_dirs_in; exact H].
+  - apply in_lin_fragment_def in H.
+    split; [apply fragment_pos_in; exact H|]. split; [exact H|apply fragment_dirs_in; exact H].
+  - apply in_lin_vardef in H. destruct H as [o [Ho Hv]]. eapply operation_vardef_in; eassumption.
+  - apply in_lin_directive in H. destruct H as [site [Hs Hd]]. eapply directive_pos_in; eassumption.
+  - apply in_lin_field in H. apply selection_pos_in. apply H.
+  - apply in_lin_spread in H. apply selection_pos_in. apply H.
+  - apply in_lin_inline in H. apply selection_pos_in. apply H.
+Qed.
+
+Lemma node_ok_trace s d c e c' : In (e, c') (ctr_document s d c) -> node_ok d e.
+Proof.
+  intro H. apply node_ok_lin. rewrite <- (ctr_document_events s d c).
+  apply in_map_iff. exists (e, c'). split; [reflexivity|exact H].
+Qed.
+
+(* ---- the invariant ---- *)
+Definition locs_ok (d : document) (e : verror) : Prop := incl (e_locs e) (doc_positions d).
+Definition allok (d : document) (l : list verror) : Prop := Forall (locs_ok d) l.
+
+Ltac fin_ok :=
+  unfold locs_ok, err, vct_err; cbn [e_locs node_pos sel_dirs] in *;
+  let q := fresh "q" in let Hq := fresh "Hq" in
+  intros q Hq; cbn [In] in Hq;
+  repeat match goal with
+         | H : _ /\ _ |- _ => destruct H
+         | H : _ \/ _ |- _ => destruct H
+         end;
+  try contradiction; subst; auto.
+
+Ltac allok_tac := unfold allok in *; allq fin_ok.
+
+Lemma counts_finish_ok d r st : allok d (counts_finish r st).
+Proof. unfold counts_finish. allok_tac. Qed.
+
+Lemma lao_ok d st e c : node_ok d e -> allok d st -> allok d (lao_step st e c).
+Proof.
+  intros Hn H. by_event e; cbn [lao_step]; try exact H. cbn [node_ok] in Hn. subst d0.
+  apply Forall_app. split; [exact H|]. apply Forall_flat_map_all. intros x Hx.
+  destruct x as [o|f]; [|constructor].
+  destruct (o_kind o) eqn:Ek.
+  - allok_tac.
+  - assert (Hp : In (o_pos o) (doc_positions d)) by (apply operation_pos_in; [apply in_operations_of; exact Hx|rewrite Ek; discriminate]).
+    allok_tac.
+  - assert (Hp : In (o_pos o) (doc_positions d)) by (apply operation_pos_in; [apply in_operations_of; exact Hx|rewrite Ek; discriminate]).
+    allok_tac.
+  - assert (Hp : In (o_pos o) (doc_positions d)) by (apply operation_pos_in; [apply in_operations_of; exact Hx|rewrite Ek; discriminate]).
+    allok_tac.
+Qed.
+
+Lemma sfs_ok s d st e c : node_ok d e -> allok d (r_errors st) -> allok d (r_errors (sfs_step s d st e c)).
+Proof.
+  intros Hn H. by_event e; cbn [sfs_step]; try exact H. cbn [node_ok] in Hn. destruct Hn as [Hn _].
+  destruct (o_kind o); try exact H. specialize (Hn ltac:(discriminate)).
+  destruct (subscription_type s); try exact H.
+  destruct (collect_fields s d t (o_sels o)); cbn [r_errors]; allok_tac.
+Qed.
+
+Lemma ktn_ok s d st e c : node_ok d e -> allok d st -> allok d (ktn_step s st e c).
+Proof. intros Hn H. by_event e; cbn [ktn_step node_ok] in *; allok_tac. Qed.
+
+Lemma foc_ok s d st e c : node_ok d e -> allok d st -> allok d (foc_step s st e c).
+Proof. intros Hn H. by_event e; cbn [foc_step node_ok] in *; allok_tac. Qed.
+
+Lemma vit_ok s d st e c : node_ok d e -> allok d st -> allok d (vit_step s st e c).
+Proof. intros Hn H. by_event e; cbn [vit_step node_ok] in *; allok_tac. Qed.
+
+Lemma lfs_ok d st e c : node_ok d e -> allok d st -> allok d (lfs_step st e c).
+Proof. intros Hn H. by_event e; cbn [lfs_step node_ok] in *; allok_tac. Qed.
+
+Lemma foct_ok s d st e c : node_ok d e -> allok d st -> allok d (foct_step s st e c).
+Proof.
+  intros Hn H. by_event e; cbn [foct_step node_ok] in *; try exact H.
+  - destruct Hn as [Hn _]. destruct (o_kind o); try exact H. specialize (Hn ltac:(discriminate)). allok_tac.
+  - allok_tac.
+Qed.
+
+Lemma kfn_ok d st e c : node_ok d e -> allok d st -> allok d (kfn_step d st e c).
+Proof. intros Hn H. by_event e; cbn [kfn_step node_ok] in *; allok_tac. Qed.
+
+Lemma nuf_ok d st e c :
+  allok d (r_errors (nuf_res st)) -> allok d (r_errors (nuf_res (nuf_step d st e c))).
+Proof.
+  intro H. by_event e; cbn [nuf_step]; try exact H.
+  - destruct f; try exact H. destruct (nuf_current st); exact H.
+  - destruct n; try exact H.
+    destruct (nuf_reach _ _ _ _); cbn [nuf_res r_errors]; allok_tac.
+Qed.
+
+(* no_fragments_cycle *)
+Lemma c13_known_fragment_in d n f : known_fragment d n = Some f -> In f (fragments_of d).
+Proof.
+  induction d as [|x r IH]; cbn [known_fragment]; [discriminate|].
+  destruct x as [o|g]; cbn [fragments_of flat_map app].
+  - exact IH.
+  - destruct (known_fragment r n) as [g'|].
+    + intro E. right. apply IH. exact E.
+    + destruct (name_eqb n (fr_name g)); [|discriminate]. intro E. inversion E; subst. left. reflexivity.
+Qed.
+
+Lemma spreads_of_selection_in x sp :
+  In sp (spreads_of_selection x) -> exists y, In y (sel_all x) /\ node_pos y = fst sp.
+Proof.
+  induction x as [p al n args dirs spn sels IH|p n dirs|p tc dirs spn sels IH] using selection_ind';
+    cbn [spreads_of_selection sel_all]; intro H.
+  - apply in_flat_map in H. destruct H as [z [Hz Hsp]]. rewrite Forall_forall in IH.
+    destruct (IH z Hz Hsp) as [y [Hy E]]. exists y. split; [|exact E].
+    right. apply in_flat_map. exists z. split; assumption.
+  - destruct H as [<-|[]]. exists (SSpread p n dirs). split; [left; reflexivity|reflexivity].
+  - apply in_flat_map in H. destruct H as [z [Hz Hsp]]. rewrite Forall_forall in IH.
+    destruct (IH z Hz Hsp) as [y [Hy E]]. exists y. split; [|exact E].
+    right. apply in_flat_map. exists z. split; assumption.
+Qed.
+
+Lemma recursive_spreads_positions d f sp :
+  In f (fragments_of d) -> In sp (get_recursive_fragment_spreads (fr_sels f)) -> In (fst sp) (doc_positions d).
+Proof.
+  intros Hf Hsp. unfold get_recursive_fragment_spreads in Hsp. apply in_flat_map in Hsp.
+  destruct Hsp as [x [Hx Hsp]]. destruct (spreads_of_selection_in x sp Hsp) as [y [Hy E]]. rewrite <- E.
+  apply selection_pos_in. unfold doc_selections. apply in_flat_map. exists (DFrag f).
+  split; [apply in_fragments_of; exact Hf|]. cbn [def_sels]. unfold sels_all. apply in_flat_map.
+  exists x. split; assumption.
+Qed.
+
+Lemma nfc_ok d st e c :
+  node_ok d e -> allok d (r_errors (nfc_res st)) -> allok d (r_errors (nfc_res (nfc_step d st e c))).
+Proof.
+  intros Hn H. by_event e; cbn [nfc_step]; try exact H. cbn [node_ok] in Hn. destruct Hn as [_ [Hf _]].
+  destruct (detect_cycles _ _ _ _ _ _ _) as [[v errs]|] eqn:E; cbn [nfc_res r_errors]; [|exact H].
+  eapply (detect_cycles_inv (locs_ok d) d
+            (fun frag paths => In frag (fragments_of d) /\ Forall (fun sp => In (fst sp) (doc_positions d)) paths));
+    [| |split; [exact Hf|constructor]|exact H|exact E].
+  - intros frag paths sp def [Hfr Hp] Hsp Hk. split; [eapply c13_known_fragment_in; exact Hk|].
+    apply Forall_app. split; [exact Hp|]. constructor; [|constructor].
+    eapply recursive_spreads_positions; eassumption.
+  - intros frag paths sp idx [Hfr Hp] Hsp. unfold locs_ok, err. cbn [e_locs]. intros q Hq.
+    apply in_map_iff in Hq. destruct Hq as [sp' [<- Hin]].
+    assert (Hin' : In sp' (paths ++ [sp])).
+    { rewrite <- (firstn_skipn idx (paths ++ [sp])). apply in_or_app. right. exact Hin. }
+    apply in_app_or in Hin'. destruct Hin' as [Hin'|[<-|[]]].
+    + rewrite Forall_forall in Hp. apply Hp. exact Hin'.
+    + eapply recursive_spreads_positions; eassumption.
+Qed.
+
+Lemma pfs_ok s d st e c : allok d st -> allok d (pfs_step s d st e c).
+Proof. intro H. by_event e; cbn [pfs_step]; allok_tac. Qed.
+
+Lemma nuv_finish_ok d st : allok d (r_errors (nuv_finish d st)).
+Proof.
+  unfold nuv_finish. apply (fold_inv (fun res => allok d (r_errors res))).
+  - constructor.
+  - intros res entry _ H. destruct (vars_walk _ _ _ _ _ _) as [[used vis]|]; cbn [r_errors]; allok_tac.
+Qed.
+
+Lemma nudv_finish_ok d st : allok d (r_errors (nudv_finish d st)).
+Proof.
+  unfold nudv_finish. apply (fold_inv (fun res => allok d (r_errors res))).
+  - constructor.
+  - intros res entry _ H. destruct (vars_walk _ _ _ _ _ _) as [[used vis]|]; cbn [r_errors]; allok_tac.
+Qed.
+
+Lemma kan_ok s d st e c : allok d (kan_errs st) -> allok d (kan_errs (kan_step s st e c)).
+Proof.
+  intro H. by_event e; cbn [kan_step]; try exact H.
+  - destruct (kan_slot st) as [[owner defs]|]; try exact H.
+    destruct (existsb _ defs); cbn [kan_errs]; allok_tac.
+  - destruct f; exact H.
+  - destruct n; exact H.
+Qed.
+
+Lemma uan_errors_ok d p args : In p (doc_positions d) -> allok d (uan_errors p args).
+Proof.
+  intro Hp. unfold uan_errors. apply Forall_flat_map_all. intros kv _.
+  destruct (Nat.ltb 1 (snd kv)); [|constructor]. constructor; [|constructor].
+  unfold locs_ok, err. cbn [e_locs]. intros q Hq. apply repeat_spec in Hq. subst q. exact Hp.
+Qed.
+
+Lemma uan_ok d st e c : node_ok d e -> allok d st -> allok d (uan_step st e c).
+Proof.
+  intros Hn H. by_event e; cbn [uan_step node_ok] in *; try exact H.
+  - apply Forall_app. split; [exact H|apply uan_errors_ok; exact Hn].
+  - destruct f; try exact H. apply Forall_app. split; [exact H|apply uan_errors_ok; apply Hn].
+Qed.
+
+Lemma al_get_in {V} k (m : list (name * V)) v : al_get k m = Some v -> exists k', In (k', v) m.
+Proof.
+  induction m as [|[k' v'] r IH]; cbn [al_get]; [discriminate|].
+  destruct (name_eqb k k').
+  - intro E. inversion E; subst. exists k'. left. reflexivity.
+  - intro E. destruct (IH E) as [k2 H2]. exists k2. right. exact H2.
+Qed.
+
+Definition uvn_inv (d : document) (st : uvn_state) : Prop :=
+  Forall (fun np : name * pos => In (snd np) (doc_positions d)) (uvn_found st) /\ allok d (uvn_errs st).
+
+Lemma uvn_ok d st e c : node_ok d e -> uvn_inv d st -> uvn_inv d (uvn_step st e c).
+Proof.
+  intros Hn [Hf H]. by_event e; cbn [uvn_step node_ok] in *; try (split; assumption).
+  - split; [constructor|exact H].
+  - destruct (al_get (v_name v) (uvn_found st)) as [p0|] eqn:Eg; split; cbn [uvn_found uvn_errs]; try assumption.
+    + destruct (al_get_in _ _ _ Eg) as [k' Hk]. rewrite Forall_forall in Hf. specialize (Hf _ Hk). cbn [snd] in Hf.
+      allok_tac.
+    + apply Forall_app. split; [exact Hf|]. constructor; [exact Hn|constructor].
+Qed.
+
+Lemma pra_ok s d st e c : node_ok d e -> allok d st -> allok d (pra_step s st e c).
+Proof. intros Hn H. by_event e; cbn [pra_step node_ok] in *; allok_tac. Qed.
+
+Lemma kd_ok s d st e c : node_ok d e -> allok d (kd_errs st) -> allok d (kd_errs (kd_step s st e c)).
+Proof.
+  intros Hn H. by_event e; cbn [kd_step node_ok] in *; try exact H.
+  - destruct (directive_map_get s (d_name d0)); [destruct (kd_loc st); [destruct (existsb _ _)|]|];
+      cbn [kd_errs]; allok_tac.
+  - destruct n; exact H.
+Qed.
+
+Lemma check_duplicate_directive_ok s d dirs : dirs_ok d dirs -> allok d (check_duplicate_directive s dirs).
+Proof.
+  intro Hd. apply check_duplicate_directive_inv. intros x Hx. unfold locs_ok, err. cbn [e_locs].
+  intros q [<-|[]]. apply Hd. exact Hx.
+Qed.
+
+Lemma udl_ok s d st e c : node_ok d e -> allok d st -> allok d (udl_step s st e c).
+Proof.
+  intros Hn H. by_event e; cbn [udl_step node_ok] in *; try exact H; try destruct f; try exact H;
+    cbn [sel_dirs] in Hn;
+    (apply Forall_app; split; [exact H|apply check_duplicate_directive_ok; apply Hn]).
+Qed.
+
+(* variables_in_allowed_position *)
+Definition vardefs_ok (d : document) (vds : list vardef) : Prop := Forall (fun v => In (v_pos v) (doc_positions d)) vds.
+Definition viap_inv (d : document) (st : viap_state) : Prop :=
+  Forall (fun entry : scope * list vardef => vardefs_ok d (snd entry)) (vp_defs st).
+
+Lemma as_get_in {K V} (keq : K -> K -> bool) k (m : list (K * V)) v : as_get keq k m = Some v -> exists k', In (k', v) m.
+Proof.
+  induction m as [|[k' v'] r IH]; cbn [as_get]; [discriminate|].
+  destruct (keq k k').
+  - intro E. inversion E; subst. exists k'. left. reflexivity.
+  - intro E. destruct (IH E) as [k2 H2]. exists k2. right. exact H2.
+Qed.
+
+Lemma as_set_Forall {K V} (keq : K -> K -> bool) (P : V -> Prop) k v (m : list (K * V)) :
+  P v -> Forall (fun kv => P (snd kv)) m -> Forall (fun kv => P (snd kv)) (as_set keq k v m).
+Proof.
+  intros Hv. induction m as [|[k' v'] r IH]; cbn [as_set]; intro H.
+  - constructor; [exact Hv|constructor].
+  - inversion H as [|? ? H1 H2]; subst. destruct (keq k k'); constructor; try assumption.
+    apply IH. exact H2.
+Qed.
+
+Lemma as_push_vardefs_ok d sc v m :
+  In (v_pos v) (doc_positions d) ->
+  Forall (fun entry : scope * list vardef => vardefs_ok d (snd entry)) m ->
+  Forall (fun entry : scope * list vardef => vardefs_ok d (snd entry)) (as_push scope_eqb sc v m).
+Proof.
+  intros Hv Hm. unfold as_push. destruct (as_get scope_eqb sc m) as [l|] eqn:Eg.
+  - apply (as_set_Forall scope_eqb (vardefs_ok d)); [|exact Hm].
+    destruct (as_get_in _ _ _ _ Eg) as [k' Hk]. rewrite Forall_forall in Hm. specialize (Hm _ Hk). cbn [snd] in Hm.
+    apply Forall_app. split; [exact Hm|constructor; [exact Hv|constructor]].
+  - apply Forall_app. split; [exact Hm|]. constructor; [|constructor]. cbn [snd]. constructor; [exact Hv|constructor].
+Qed.
+
+Lemma viap_collect_ok s d st e c : node_ok d e -> viap_inv d st -> viap_inv d (viap_collect s st e c).
+Proof.
+  unfold viap_inv. intros Hn H. by_event e; cbn [viap_collect node_ok] in *; try exact H.
+  - destruct (vp_scope st); [|exact H]. cbn [vp_defs]. apply as_push_vardefs_ok; assumption.
+  - destruct f; try exact H. destruct (vp_scope st); exact H.
+  - destruct (vp_scope st); [|exact H]. destruct (current_input_type_literal c); exact H.
+  - destruct n; exact H.
+Qed.
+
+Lemma find_first_in {A} (p : A -> bool) l x : find_first p l = Some x -> In x l.
+Proof.
+  induction l as [|y r IH]; cbn [find_first]; [discriminate|].
+  destruct (p y); intro E; [inversion E; subst; left; reflexivity|right; apply IH; exact E].
+Qed.
+
+Lemma usage_errors_ok s d vds u : vardefs_ok d vds -> allok d (usage_errors s vds u).
+Proof.
+  intro Hv. unfold usage_errors. apply Forall_flat_map_all. intros [[vn vt] hd] _.
+  destruct (find_first _ vds) as [vd|] eqn:Ef; [|constructor].
+  destruct (is_subtype _ _ _); [constructor|]. constructor; [|constructor].
+  unfold locs_ok, err. cbn [e_locs]. intros q [<-|[]].
+  apply find_first_in in Ef. unfold vardefs_ok in Hv. rewrite Forall_forall in Hv. apply Hv. exact Ef.
+Qed.
+
+Lemma vct_ok s d st e c : allok d st -> allok d (vct_step s st e c).
+Proof.
+  assert (HV : forall c v, allok d (validate_value s c v)).
+  { intros c0 v. unfold validate_value. allok_tac. }
+  intro H. by_event e; cbn [vct_step]; try exact H;
+    repeat first [ apply HV | progress allok_tac ].
+Qed.
+
+Lemma run_alone_locations_allok r s d : r <> R_OverlappingFieldsCanBeMerged -> allok d (run_alone r s d).
+Proof.
+  intro Hr. unfold run_alone. destruct r; try (exfalso; apply Hr; reflexivity);
+    cbn [run_rule]; rewrite visit_fold; cbn [snd r_errors plain].
+  - apply counts_finish_ok.
+  - apply (walk_inv (allok d)); [constructor|]. intros st e c Hin; apply lao_ok; eapply node_ok_trace; exact Hin.
+  - apply (walk_inv (fun st => allok d (r_errors st))); [constructor|]. intros st e c Hin; apply sfs_ok; eapply node_ok_trace; exact Hin.
+  - apply (walk_inv (allok d)); [constructor|]. intros st e c Hin; apply ktn_ok; eapply node_ok_trace; exact Hin.
+  - apply (walk_inv (allok d)); [constructor|]. intros st e c Hin; apply foc_ok; eapply node_ok_trace; exact Hin.
+  - apply (walk_inv (allok d)); [constructor|]. intros st e c Hin; apply vit_ok; eapply node_ok_trace; exact Hin.
+  - apply (walk_inv (allok d)); [constructor|]. intros st e c Hin; apply lfs_ok; eapply node_ok_trace; exact Hin.
+  - apply (walk_inv (allok d)); [constructor|]. intros st e c Hin; apply foct_ok; eapply node_ok_trace; exact Hin.
+  - apply counts_finish_ok.
+  - apply (walk_inv (allok d)); [constructor|]. intros st e c Hin; apply kfn_ok; eapply node_ok_trace; exact Hin.
+  - apply (walk_inv (fun st => allok d (r_errors (nuf_res st)))); [constructor|]. intros st e c Hin; apply nuf_ok.
+  - apply (walk_inv (fun st => allok d (r_errors (nfc_res st)))); [constructor|]. intros st e c Hin; apply nfc_ok; eapply node_ok_trace; exact Hin.
+  - apply (walk_inv (allok d)); [constructor|]. intros st e c Hin; apply pfs_ok.
+  - apply nuv_finish_ok.
+  - apply nudv_finish_ok.
+  - apply (walk_inv (fun st => allok d (kan_errs st))); [constructor|]. intros st e c Hin; apply kan_ok.
+  - apply (walk_inv (allok d)); [constructor|]. intros st e c Hin; apply uan_ok; eapply node_ok_trace; exact Hin.
+  - apply (walk_inv (uvn_inv d) uvn_step); [split; constructor|]. intros st e c Hin; apply uvn_ok; eapply node_ok_trace; exact Hin.
+  - apply (walk_inv (allok d)); [constructor|]. intros st e c Hin; apply pra_ok; eapply node_ok_trace; exact Hin.
+  - apply (walk_inv (fun st => allok d (kd_errs st))); [constructor|]. intros st e c Hin; apply kd_ok; eapply node_ok_trace; exact Hin.
+  - apply viap_finish_inv. intros entry u Hentry. apply usage_errors_ok.
+    assert (Hinv : viap_inv d (fold_left (hh (viap_collect s)) (ctr_document s d ctx0) viap_init)).
+    { apply (walk_inv (viap_inv d)); [constructor|]. intros st e c Hin; apply viap_collect_ok; eapply node_ok_trace; exact Hin. }
+    unfold viap_inv in Hinv. rewrite Forall_forall in Hinv. apply Hinv. exact Hentry.
+  - apply (walk_inv (allok d)); [constructor|]. intros st e c Hin; apply vct_ok.
+  - apply (walk_inv (allok d)); [constructor|]. intros st e c Hin; apply udl_ok; eapply node_ok_trace; exact Hin.
+Qed.
+
+Lemma run_alone_locations : forall r s d e p, r <> R_OverlappingFieldsCanBeMerged ->
+  In e (run_alone r s d) -> In p (e_locs e) -> In p (doc_positions d).
+Proof.
+  intros r s d e p Hr Hin Hp. pose proof (run_alone_locations_allok r s d Hr) as H. unfold allok in H.
+  rewrite Forall_forall in H. apply (H e Hin). exact Hp.
+Qed.
